@@ -122,6 +122,12 @@ def explore(exe, entry, tag, bound, mode="compile", replay_every=8, cap=None, nw
     def one(prefix):
         s = server()
         r = s.run(prefix)
+        # the 30 s wall guard of a child fires on an overloaded machine too: a verdict only if it
+        # fires three times in a row for the same schedule (then it is a thread blocked where the
+        # scheduler cannot see it); anything else was the machine, not the subject
+        for _ in range(2):
+            if r.get("fatal") in ("wallclock",) or str(r.get("fatal", "")).startswith("no-report"):
+                r = s.run(prefix)
         again = None
         if r.get("fatal") or r.get("status") in ("panic", "fatal") or (hash(tuple(prefix)) % replay_every == 0):
             again = s.run(prefix)
